@@ -3,7 +3,7 @@ evaluation times).  No sc3 import.
 
 Domain restrictions (documented domains of the shapes):
   * 'exp' only between levels of the same sign, none zero;
-  * 'sqr' / 'cub' only with non-negative levels;
+  * 'sqr' only with non-negative levels (square root); 'cub' with any sign;
   * curvature numbers within +-30 (exp(curve) must stay finite and the
     server works in single precision);
   * durations are 0 (zero-length segment) or within [2**-10, 16].
@@ -15,6 +15,7 @@ sqr/squared, cub/cubed, hold).
 ANY_SIGN_NAMES = ['step', 'lin', 'linear', 'sin', 'sine', 'wel', 'welch', 'hold']
 EXP_NAMES = ['exp', 'exponential']
 POW_NAMES = ['sqr', 'squared', 'cub', 'cubed']
+CUB_NAMES = ['cub', 'cubed']
 
 
 def gen_level(rng, cls):
@@ -51,16 +52,20 @@ def gen_curve_item(rng, cls):
         names += EXP_NAMES * 2
     if cls in ('pos', 'nonneg'):
         names += POW_NAMES
+    else:
+        # the cube root is defined for every sign (the class documentation
+        # restricts only 'exp'); 'sqr' needs a square root and stays >= 0
+        names += CUB_NAMES
     if rng.random() < 0.45:
         return rng.choice([-4, -4.0, 4, 0, 0.0, 1, -1, 2.5, -8.0, 1e-5, 30, -30,
                            round(rng.uniform(-10, 10), 2)])
     return rng.choice(names)
 
 
-def gen_env_args(rng):
+def gen_env_args(rng, cls=None):
     """-> dict(levels, times, curves, release_node, loop_node, cls, dyadic,
     multichannel)"""
-    cls = rng.choice(['any', 'any', 'pos', 'pos', 'neg', 'nonneg'])
+    cls = cls or rng.choice(['any', 'any', 'pos', 'pos', 'neg', 'nonneg'])
     nlev = rng.choice([2, 2, 3, 3, 4, 5, rng.randint(2, 12)])
     nseg = nlev - 1
     levels = [gen_level(rng, cls) for _ in range(nlev)]
